@@ -681,7 +681,10 @@ class SymArray:
 
 class RecVal:
     """numpy.void: one element of an array with a structured dtype (field values in declaration order; python numbers,
-    SymInt / SymBool / SymFloat / SymComplex).  value['name'] is the field as a numpy scalar of the field's dtype."""
+    SymInt / SymBool / SymFloat / SymComplex; for a field whose dtype is itself structured a RecVal or the sequence of its
+    field values).  value['name'] is the field as a numpy scalar of the field's dtype (a numpy.void again for a structured
+    field).  As with numpy.void the fields are NOT attributes: value.name raises AttributeError (only numpy.record, the
+    element type of a recarray, has field attributes)."""
     pysym_void = True
 
     def __init__(self, dtype, vals):
@@ -726,12 +729,14 @@ class RecVal:
     def _field(self, i):
         fdt = self.dtype.fields[self.dtype.names[i]][0]
         v = self.vals[i]
+        if fdt.fields is not None and fdt.subdtype is None:
+            return v if isinstance(v, RecVal) else RecVal(fdt, v)      # a field with a structured dtype is a numpy.void again
         return NpInt(fdt, v) if fdt.kind in "iu" else v
 
     def __getitem__(self, k):
         if isinstance(k, str):
             if k not in self.dtype.names:
-                raise IndexError("no field of name " + k)
+                raise ValueError("no field of name " + k)       # numpy 2: ValueError (harness/py/c19recarr.py void_model_lemma)
             return self._field(self.dtype.names.index(k))
         return self._field(range(len(self.vals))[int(k)])
 
